@@ -35,7 +35,7 @@ Definition of_mod (m : N) (i : item) : bool :=
   match item_mod i with Some m' => m' =? m | None => false end.
 
 Lemma is_run_of_mod m i : is_run m i = true -> of_mod m i = true.
-Proof. destruct i as [m' c t a| | | | | | | | | | | |]; try discriminate. destruct c; try discriminate; exact (fun H => H). Qed.
+Proof. destruct i as [m' c t a| | | | | | | | | | | | |]; try discriminate. destruct c; try discriminate; exact (fun H => H). Qed.
 
 Lemma own_not_of_mod m1 m l : Own m1 l -> m1 <> m -> forallb (fun i => negb (of_mod m i)) l = true.
 Proof.
